@@ -30,6 +30,7 @@ def _run(prog: Program, rep: Report, tier: str) -> None:
     rep.rule('C07-D3', 'mv / mm forward the semiring and use index strings that denote matrix-vector / matrix-matrix contraction')
     rep.rule('C07-D4', 'pointer width: at every return of the Viterbi variant the size of the pointer\'s last axis is the number of summed-out indices (the index map after the output pops, or the list of per-index pointers built from it), never the number of output axes nor the number of physical argmax coordinates of the raw library pointer; the literal 0 only on the empty-operand return')
     rep.rule('C07-D5', 'stride-0 reduction only for sum-free equations: in reduce_equation the operands are shrunk (as_strided) only when every variable of the equation is an output variable; with a summed-out variable the equation is handed on unchanged (a broadcast summed-out index contributes n identical terms and must not be dropped)')
+    rep.rule('C07-D6', 'co-indexing covers every operand position: the loop that pairs an operand\'s virtual axes with its index list iterates zip(<t>.vaxes, <indices>) itself (no dict/set in between, which would drop a repeated index), is never left early (no break/return inside it or its enclosing operand loop), and on every path of an iteration either unifies the axis with the one already recorded for the index or records it')
     rep.not_decided += ['correctness of axis unification, projection strides, reduce_equation and argmax reconstruction (numerical / combinatorial)']
     rep.trusted += ['torch_semiring_einsum calls the callbacks as documented (extend.py)', 'transfer tables of sa/absint/domain.py']
     semiring_laws.check_einsum_callbacks(prog, rep, 'C07-D1 callbacks')
@@ -39,6 +40,7 @@ def _run(prog: Program, rep: Report, tier: str) -> None:
         n_ctor += zero_relative(rep, prog, f)
     rep.floor('C07-D2 value constructors', n_ctor, 6)
     shorthands(rep, prog)
+    co_indexing(rep, prog)
     pointer_width(rep, prog)
     reduce_only_sum_free(rep, prog)
 
@@ -334,3 +336,58 @@ def reduce_only_sum_free(rep: Report, prog: Program) -> None:
     bad = [n for n in shrink if n in r]
     rep.ob(rule, f.fq(), f"as_strided shrinking unreachable unless ({t})", f.loc(cfg.nodes[shrink[0]].stmt), not bad,
            'an equation with a summed-out variable is returned unchanged' if not bad else 'the shrinking is reachable for an equation with a summed-out variable')
+
+
+def co_indexing(rep: Report, prog: Program) -> None:
+    from ..cfg import cfg_of
+    from ..guards import Env, walk, collect_atoms
+    from ..util import helper_scopes, parents
+    rule = 'C07-D6 co-indexing'
+    seen = set()
+    n = 0
+    for fn in ('einsum', 'log_viterbi_einsum_forward'):
+        top = prog.func(IDX, fn)
+        for f, _ren in helper_scopes(prog, top):
+            if f.fq() in seen or f.module.name != IDX:
+                continue
+            seen.add(f.fq())
+            pm = parents(f)
+            loops = [l for l in own_nodes(f.node) if isinstance(l, ast.For)
+                     and any(isinstance(x, ast.Call) and callee_last(x) == 'unify' for s in l.body for x in ast.walk(s))
+                     and not any(isinstance(x, ast.For) and any(isinstance(y, ast.Call) and callee_last(y) == 'unify' for y in ast.walk(x)) for s in l.body for x in ast.walk(s))]
+            for l in loops:
+                n += 1
+                it = l.iter
+                if isinstance(it, ast.Call) and callee_last(it) == 'enumerate' and it.args:
+                    it = it.args[0]
+                plain = isinstance(it, ast.Call) and isinstance(it.func, ast.Name) and it.func.id == 'zip' and len(it.args) == 2 and not it.keywords \
+                    and any(norm(a).endswith('.vaxes') for a in it.args) and all(isinstance(a, (ast.Name, ast.Attribute, ast.Subscript)) for a in it.args)
+                rep.ob(rule, f.fq(), f"for {norm(l.target)} in {norm(l.iter)[:70]}: every (axis, index) position is visited", f.loc(l), plain,
+                       'the loop ranges over zip(<operand>.vaxes, <indices>) directly' if plain else
+                       'the pairs do not come straight from zip(<operand>.vaxes, <indices>): a container in between (dict, set) keeps one axis per index, so an index that occurs twice in one operand is not unified with itself')
+                # never left early
+                outer = pm.get(id(l))
+                while outer is not None and not isinstance(outer, (ast.For, ast.While, ast.FunctionDef)):
+                    outer = pm.get(id(outer))
+                scope = outer if isinstance(outer, (ast.For, ast.While)) else l
+                early = [x for x in ast.walk(scope) if isinstance(x, (ast.Break, ast.Return))]
+                rep.ob(rule, f.fq(), f"for {norm(l.target)} in {norm(l.iter)[:70]}: the loop is never left early", f.loc(l), not early,
+                       'no break / return inside the co-indexing loops' if not early else
+                       f"`{type(early[0]).__name__.lower()}` at line {early[0].lineno} skips the remaining positions: an index first seen there is never recorded (and a later lookup of an output index fails)")
+                # unify-or-record on every path of an iteration
+                cfg = cfg_of(f)
+                hdr = cfg.node_of(l)
+                be = [b for b, lab in cfg.succ[hdr] if lab == 'iter'][0]
+
+                def acts(k: int) -> bool:
+                    nd = cfg.nodes[k]
+                    e = nd.expr if nd.kind == 'test' else nd.stmt if nd.kind == 'stmt' else None
+                    if e is None:
+                        return False
+                    if any(isinstance(x, ast.Call) and callee_last(x) == 'unify' for x in ast.walk(e)):
+                        return True
+                    return isinstance(e, ast.Assign) and any(isinstance(t, ast.Subscript) for t in e.targets)
+                ok, wit = cfg.all_paths_pass(be, acts, targets={hdr, cfg.exit})
+                rep.ob(rule, f.fq(), f"for {norm(l.target)} in {norm(l.iter)[:70]}: each position is unified or recorded", f.loc(l), ok,
+                       'every path of an iteration passes a unify(...) or a store into the index table' if ok else 'an iteration can finish without unifying or recording the axis')
+    rep.floor('C07-D6', n, 1)
